@@ -163,6 +163,8 @@ func fileImportHandle(raw []byte) map[string]interface{} {
 		Enable bool   `json:"enable"` // EnableFileImport
 		InMap  bool   `json:"inmap"`  // the name is also in the module map
 		SetDir bool   `json:"setdir"`
+		Near   []string `json:"near"` // other names present in the module map: look-alikes of the import name that must not be taken for it
+		Nested bool     `json:"nested"` // the import stands inside a source module instead of the main script
 	}
 	if err := json.Unmarshal(raw, &c); err != nil {
 		return map[string]interface{}{"error": err.Error()}
@@ -182,7 +184,15 @@ func fileImportHandle(raw []byte) map[string]interface{} {
 	if c.InMap {
 		mm.AddSourceModule(name, []byte("export \"FROM-MAP\"\n"))
 	}
-	s := tengo.NewScript([]byte(fmt.Sprintf("out := import(%q)\n", name)))
+	for _, n := range c.Near {
+		mm.AddSourceModule(n, []byte(fmt.Sprintf("export \"NEAR:%s\"\n", n)))
+	}
+	src := fmt.Sprintf("out := import(%q)\n", name)
+	if c.Nested {
+		mm.AddSourceModule("outer", []byte(fmt.Sprintf("export import(%q)\n", name)))
+		src = "out := import(\"outer\")\n"
+	}
+	s := tengo.NewScript([]byte(src))
 	s.SetImports(mm)
 	s.EnableFileImport(c.Enable)
 	if c.SetDir {
